@@ -271,7 +271,7 @@ Proof.
   pose proof (insert_lawful E debug ck cq HL k v w Hw) as H.
   unfold wp in *. rewrite (insert_unchecked_eq_insert_present k v i w Hw Hf).
   destruct (insert E debug k v w) as [r w'|w'|]; [exact H | | exact H].
-  destruct H as (_ & Hn & _). congruence.
+  destruct H as (_ & _ & Hn & _). congruence.
 Qed.
 
 End UncheckedPresent.
@@ -418,7 +418,7 @@ Lemma replace_on_full_insert k v i (w : world) :
 Proof.
   intros Hw Hf _.
   eapply wp_mono; [apply (insert_lawful E debug ck cq HL k v w Hw) | auto |]; cbn beta.
-  intros w' (_ & Hn & _). congruence.
+  intros w' (_ & _ & Hn & _). congruence.
 Qed.
 
 Lemma replace_on_full_checked_insert k v i (w : world) :
@@ -445,7 +445,7 @@ Lemma replace_on_full_insert_key_value k v i (w : world) :
 Proof.
   intros Hw Hf _.
   eapply wp_mono; [apply (insert_key_value_lawful E debug ck cq HL k v w Hw) | auto |]; cbn beta.
-  intros w' (_ & Hn & _). congruence.
+  intros w' (_ & _ & Hn & _). congruence.
 Qed.
 
 (* what the l_insert result is in that situation: same length, slot i rewritten *)
